@@ -12,7 +12,7 @@ import SqlglotModel.Generated.C11
 
 namespace SqlglotModel.Properties.C11
 open SqlglotModel.Sem SqlglotModel.Exec
-open SqlglotModel.Generated.C11 (cfg envIdentity widenForm subqueryEnv subqCmpWrapped)
+open SqlglotModel.Generated.C11 (cfg envIdentity widenForm subqueryEnv subqCmpWrapped subqueryArgs)
 
 /-- finite table fact (decided completely): the constants, index offsets, side sets, empty_null flags and operator
     lambdas extracted from the current source are the ones the theorems below are proved for -/
@@ -379,6 +379,35 @@ theorem subquery_env_spec (op : CmpOp) (v : Val) (xs : List Val) :
 theorem wrapped_subquery_comparison_witness :
     notInSubquery true cfg .null [] = some .null ∧ triVal (notInSub .null []) = .bool true
     ∧ subqueryComparisonEnv true cfg "GT" "ALL" .null [] = some .null ∧ triVal (all3 .gt .null []) = .bool true := by
+  decide +kernel
+
+/-! ## the per-subquery memo of _subquery_table, keyed by the SUBQUERY_* arguments -/
+
+/-- pinned from the source (ast of _compile_subquery): the argument list — hence the memo key — is
+    `list(scope.external_columns)`, every outer column the subquery reads, table-qualified -/
+theorem generated_subquery_args_ok : subqueryArgs = .allExternal := by decide
+
+/-- generic memo lemma: a memo whose key determines the result is transparent (any argument sequence, any consistent cache) -/
+theorem memo_transparent {α κ β} [DecidableEq κ] (key : α → κ) (f : α → β)
+    (hdet : ∀ a b, key a = key b → f a = f b) (as : List α) : memoRun key f as [] = as.map f :=
+  memoRun_transparent key f hdet as [] (by intro p hp; cases hp)
+
+/-- the subquery memo is transparent whenever the key holds the value of EVERY outer column the subquery reads — which
+    `allExternal` guarantees (key columns = read columns) -/
+theorem subquery_memo_spec {β} (reads keyCols : List Nat) (g : List Val → β) (hsub : ∀ i ∈ reads, i ∈ keyCols)
+    (rows : List Row) :
+    memoRun (fun r => keyCols.map (Sem.getCol r)) (fun r => g (reads.map (Sem.getCol r))) rows []
+      = rows.map fun r => g (reads.map (Sem.getCol r)) :=
+  subquery_memo_transparent reads keyCols g hsub rows
+
+example : ∀ i ∈ ([0, 1] : List Nat), i ∈ ([0, 1] : List Nat) := by decide
+
+/-- witness: key de-duplicated by bare column name (t.a and u.a share the name, only u.a survives): two outer rows
+    agreeing on u.a and differing on t.a get the first row's cached subquery result -/
+theorem deduped_memo_key_witness :
+    memoRun (fun r => [1].map (Sem.getCol r)) (fun r => ([0, 1].map (Sem.getCol r)).map Val.toInt |>.sum)
+        [[.int 1, .int 5], [.int 2, .int 5]] [] = [6, 6]
+    ∧ ([[.int 1, .int 5], [.int 2, .int 5]] : List Row).map (fun r => ([0, 1].map (Sem.getCol r)).map Val.toInt |>.sum) = [6, 7] := by
   decide +kernel
 
 end SqlglotModel.Properties.C11
